@@ -143,11 +143,12 @@ func HC04_struct() {
 	decls := codeForStruct(st, make(gen.Cache))
 	text := skelSquash(decls[len(decls)-1].Content)
 	vfObserve("text", text)
-	keyList := "key IN (" + strings.Join(keys, ", ") + ")"
 	if len(keys) == 0 {
-		keyList = "TRUE"
+		// no exported field: every key is unknown; the per-key condition must not be satisfiable
+		vfAssert(!skelHas(text, "SELECT bool_and( TRUE ) FROM jsonb_each(data)"), "C04/unknown-object-keys-are-rejected")
+	} else {
+		vfAssert(skelHas(text, "SELECT bool_and( key IN ("+strings.Join(keys, ", ")+") ) FROM jsonb_each(data)"), "C04/unknown-object-keys-are-rejected")
 	}
-	vfAssert(skelHas(text, "SELECT bool_and( "+keyList+" ) FROM jsonb_each(data)"), "C04/unknown-object-keys-are-rejected")
 	vfAssert(skelHas(text, ") FROM jsonb_each(data)) "+strings.Join(checks, " ")+";"), "C04/every-exported-field-is-validated-under-its-json-key")
 	vfAssert(skelHas(text, "IF jsonb_typeof(data) != 'object' THEN RETURN FALSE; END IF;"), "C04/non-object-documents-are-rejected")
 }
